@@ -131,6 +131,7 @@ func scenarioC04(x *runner.X) {
 		meta = append(meta, mkv{r.Bytes(1 + r.Intn(20)), r.Bytes(r.Intn(60))})
 	}
 	readerKind := t.Intn(4) // 0 simos file, 1 mmap, 2 ReaderAt eof-variant, 3 ReaderAt plain
+	prefetch := t.Bool(0.4)
 	x.Digest(valueSize, bucketKnob, n, declared, mode, disk, readerKind, nMeta, dsim.HashBytes(kvs[0].k))
 	x.Note("keys", n)
 	x.Note("value_size", valueSize)
@@ -225,6 +226,10 @@ func scenarioC04(x *runner.X) {
 		db, err := Open(stream)
 		if err != nil {
 			return x.Failf("oracle", "a sealed index cannot be opened", "%s: %v", what, err)
+		}
+		if prefetch {
+			db.Prefetch(true) // what the server sets for indexes opened over http(s)
+			x.Probe("c04.prefetch")
 		}
 		if !db.KindIs([]byte("test-kind")) {
 			return x.Failf("oracle", "metadata written at build time is not read back", "%s: kind", what)
